@@ -278,7 +278,7 @@ theorem addRr_item (hint : Hint) (owner : WName) (ty cls ttl : Nat) (rd : List U
     | panic => cases h1
     | ok p =>
       simp only [Prod.mk.injEq, true_and] at h1
-      obtain ⟨hwB, hdenB, _, _, _, ⟨ls, hrd, hmtB⟩, hck⟩ := hs.ok p rfl
+      obtain ⟨hwB, hdenB, _, _, _, ⟨ls, hrd, hmtB⟩, hck, _⟩ := hs.ok p rfl
       have hcurB : s.cursor ≤ sB.cursor := hf.cur
       simp only at hck hrd hcurB hmtB hdenB
       have itB : Item sB s.cursor (sB.cursor - s.cursor) := item_of_reads hrd hck (by omega)
@@ -476,7 +476,7 @@ theorem addRr_owner_decodes (hint : Hint) (owner : WName) (ty cls ttl : Nat) (rd
   simp only at hd
   have hs := writeHintedName_spec hint owner _ hwA hwf hhA
   rw [hwn] at hs
-  obtain ⟨hwB, _, _, _, _, _, hck⟩ := hs.ok p rfl
+  obtain ⟨hwB, _, _, _, _, _, hck, _⟩ := hs.ok p rfl
   simp only at hck
   have hcsB : sB.cursor ≤ sB.octets.size := Nat.le_trans hwB.cur_av hwB.av_size
   -- the chunk length
@@ -582,7 +582,7 @@ theorem addQuestionBody_round_trip (qn : WName) (qt qc : Nat) (s s' : State) (hw
   obtain ⟨w, k0, hd, hcase, hexact⟩ := writeUnhintedName_round_trip qn _ wA hwf p (by rw [hB])
   rw [hB] at hs hf hd
   simp only at hd
-  obtain ⟨hwB, _, _, _, _, _, hck⟩ := hs.ok p rfl
+  obtain ⟨hwB, _, _, _, _, _, hck, _⟩ := hs.ok p rfl
   have hcurB : s.cursor ≤ sB.cursor := hf.cur
   simp only at hck hcurB
   have hcsB : sB.cursor ≤ sB.octets.size := Nat.le_trans hwB.cur_av hwB.av_size
